@@ -154,6 +154,9 @@ def run(ctx):
                 ('it runs over the qualified set, which the two-party sharing does not rebuild per run' if qual_based else 'no counting loop over [0, n) indexes the shares'), flip)
     r17c(ctx)
     r17e(ctx)
+    # the joint sharing underneath the multi-party flip: complaints are counted once per (complainer, accused) -- shared with C15
+    from . import c15
+    c15.r15f(ctx, files=('JareckiLysyanskayaASTC.cc',), rule='R17f', floor=1)
     (ctx.ok if okr else ctx.bad)('R17b', 'R17b:Flip_twoparty:sum', 'result accumulates the shares modulo q' if okr else 'result is not the sum of the shares modulo q', flip)
 
 
